@@ -134,7 +134,11 @@ pub fn gen(rng: &mut Rng, idx: usize, n: usize, thorough: bool) -> String {
         _ => vt_random(rng, &labels),
     };
     let maxops = if thorough { 34 } else { 24 };
-    let nops = 3 + (frac * maxops) / 100 + rng.range(0, 4);
+    let mut nops = 3 + (frac * maxops) / 100 + rng.range(0, 4);
+    if !compress {
+        // uncompressed applies can blow up (time, not only size): keep those programs shorter
+        nops = nops.min(if thorough { 18 } else { 15 });
+    }
     let size_limit: u64 = if thorough { 6000 } else { 2500 };
     let mut builder = CompressionSddBuilder::new(vt_rsdd(&vt));
     if !compress {
